@@ -438,6 +438,14 @@ Judge(b, obs) ==
                   [] o.name \in { "TcpSynAckSilent" } -> "C12"
                   [] OTHER -> "C02"),
               "answered:" \o o.name >> }
+          (* messages their own protocol marks as replies (C12): ARP replies, echo replies and      *)
+          (* neighbour advertisements, TCP segments carrying RST or both SYN and ACK                *)
+          \cup (IF \/ (o.name = "ArpNotRequest" /\ ArpOp(b) = 2)
+                   \/ (o.name = "Icmp4Other" /\ IcmpType(b, L3Ctx(b).s) = 0)
+                   \/ (o.name = "Icmp6Other" /\ IcmpType(b, L3Ctx(b).s) \in { 129, 136 })
+                   \/ (o.kind = "none" /\ o.layers \in { << "eth", "ipv4", "tcp" >>, << "eth", "ipv6", "tcp" >> }
+                       /\ LET fl == TcpCtx(b).flags IN HasFlag(fl, F_RST) \/ (HasFlag(fl, F_SYN) /\ HasFlag(fl, F_ACK)))
+                THEN { << "C12", "reply-typed-message-answered:" \o o.name >> } ELSE {})
      ELSE {})
     \cup (IF ans = "must" /\ ~answered
           THEN { << (CASE o.kind \in { "arp", "echo4", "echo6", "na" } -> "C05"
